@@ -587,7 +587,7 @@ func (g *structGen) genStruct(depth int) (desc.T, desc.V) {
 
 // containerField draws a nested struct in one of the supported wrappers.
 func (g *structGen) containerField(name string, depth int) (desc.F, desc.V) {
-	shape := rapid.SampledFrom([]string{"struct", "ptr", "ptr", "slice", "sliceptr", "array", "map", "mapptr", "mapint", "ptrptr", "sliceptrptr", "mapptrptr", "arrayptrptr", "mapfloat", "maparr", "mapiface"}).Draw(g.t, "shape")
+	shape := rapid.SampledFrom([]string{"struct", "ptr", "ptr", "slice", "sliceptr", "array", "map", "mapptr", "mapint", "ptrptr", "sliceptrptr", "mapptrptr", "arrayptrptr", "mapfloat", "maparr", "mapiface", "mapuint"}).Draw(g.t, "shape")
 	inner, _ := g.genStruct(depth + 1)
 	// values are drawn per element below, against the same inner type: rules of
 	// the inner type were drawn relative to the first value only, which keeps
@@ -688,6 +688,9 @@ func (g *structGen) containerField(name string, depth int) (desc.F, desc.V) {
 		if shape == "mapint" {
 			key = desc.Scalar("int")
 		}
+		if shape == "mapuint" {
+			key = desc.Scalar("uint64")
+		}
 		if shape == "mapfloat" {
 			key = desc.Scalar("float64") // float keys: one of them may be NaN (a legal key that cannot be looked up)
 		}
@@ -702,6 +705,8 @@ func (g *structGen) containerField(name string, depth int) (desc.F, desc.V) {
 		for i := 0; i < n; i++ {
 			if shape == "mapint" {
 				v.K = append(v.K, desc.V{I: int64(i*7 + 1)})
+			} else if shape == "mapuint" {
+				v.K = append(v.K, []desc.V{{U: math.MaxUint64}, {U: 1 << 63}, {U: 7}}[i%3]) // keys beyond the signed range
 			} else if shape == "mapfloat" {
 				v.K = append(v.K, []desc.V{{F: 1.5}, {NaN: true}, {F: -2}}[i%3])
 			} else if shape == "maparr" || shape == "mapiface" {
@@ -805,6 +810,8 @@ func (g *structGen) genValueFor(ty desc.T, depth int) desc.V {
 				v.K = append(v.K, []desc.V{{F: 1.5}, {NaN: true}, {F: -2}}[i%3])
 			} else if ty.Key.K == "array" || ty.Key.K == "iface" {
 				v.K = append(v.K, oddKey(*ty.Key, i))
+			} else if ty.Key.K == "uint64" {
+				v.K = append(v.K, []desc.V{{U: math.MaxUint64}, {U: 1 << 63}, {U: 7}}[i%3])
 			} else {
 				v.K = append(v.K, desc.V{I: int64(i*7 + 1)})
 			}
